@@ -136,6 +136,31 @@ def write_if_changed(path, text):
     return True
 
 
+def enum_variants(rel, enum_name):
+    """Variant names of a Rust enum, in source order (None if the enum is not found)."""
+    p = REPO / rel
+    if not p.exists():
+        return None
+    m = re.search(r"\benum\s+%s\b[^{]*\{(.*?)\n\}" % re.escape(enum_name), p.read_text(), flags=re.S)
+    if not m:
+        return None
+    body = re.sub(r"//[^\n]*", "", m.group(1))
+    body = re.sub(r"#\[[^\]]*\]", "", body)
+    out = []
+    depth = 0
+    for tok in re.finditer(r"[A-Za-z_][A-Za-z_0-9]*|[{}(),]", body):
+        t = tok.group(0)
+        if t in "{(":
+            depth += 1
+        elif t in "})":
+            depth -= 1
+        elif depth == 0 and t != "," and (not out or out[-1][1]):
+            out.append([t, False])
+        if t == "," and depth == 0 and out:
+            out[-1][1] = True
+    return [x[0] for x in out]
+
+
 def translate_consts(subsys, consts):
     """consts: list of (coq_name, relative file, regex with one group, kind) where
     kind is 'N' (integer literal, underscores allowed) ; writes coq/<subsys>/Gen.v.
@@ -143,10 +168,20 @@ def translate_consts(subsys, consts):
     vals, errs = {}, []
     lines = [
         "(* GENERATED by gen/vlib.py translate_consts from %s's working tree -- do not edit. *)" % REPO,
-        "From Coq Require Import NArith.",
+        "From Coq Require Import NArith List.",
+        "Import ListNotations.",
         "Open Scope N_scope.",
     ]
     for name, rel, rx, kind in consts:
+        if kind == "enum":
+            vs = enum_variants(rel, rx)
+            if vs is None:
+                errs.append("enum %s not found in %s" % (rx, rel))
+                continue
+            vals[name] = vs
+            lines.append("Definition %s : list (list N) := [%s]." % (name, "; ".join(
+                "[" + "; ".join(str(ord(c)) for c in v) + "]" for v in vs)))
+            continue
         p = REPO / rel
         m = re.search(rx, p.read_text(), flags=re.S) if p.exists() else None
         if not m:
